@@ -75,29 +75,68 @@ pub fn check_raw(c: &RawCase) -> CheckResult {
 
 pub fn check(c: &Case) -> CheckResult {
     let be = c.big_endian;
-    let e = if be { Endianness::Big } else { Endianness::Little };
+    let e = if be {
+        Endianness::Big
+    } else {
+        Endianness::Little
+    };
     let types: Vec<_> = c.fields.iter().map(|f| type_to_crate(&f.ty)).collect();
     let mut exact = vec![];
     for f in &c.fields {
         pack(f, be, &mut exact);
     }
     let mut pass = Pass::new(false);
-    let call = |data: &[u8], what: &str| guard(|| construct_arguments(e, &types, data)).map_err(|p| Violation::from_panic(&format!("construct_arguments({:?}, {} types) on {} payload {}", e, types.len(), what, hex_short(data)), &p));
+    let call = |data: &[u8], what: &str| {
+        guard(|| construct_arguments(e, &types, data)).map_err(|p| {
+            Violation::from_panic(
+                &format!(
+                    "construct_arguments({:?}, {} types) on {} payload {}",
+                    e,
+                    types.len(),
+                    what,
+                    hex_short(data)
+                ),
+                &p,
+            )
+        })
+    };
     // exact and with trailing bytes
     let mut with_trailing = exact.clone();
     with_trailing.extend_from_slice(&c.trailing);
     for (data, what) in [(&exact, "exact"), (&with_trailing, "trailing")] {
         let args = match call(data, what)? {
             Ok(a) => a,
-            Err(err) => return Err(viol!(format!("construct:{}:refused", what), "construct_arguments refused a {} payload: {:?}; types={:?} payload={}", what, err, types, hex_short(data))),
+            Err(err) => {
+                return Err(viol!(
+                    format!("construct:{}:refused", what),
+                    "construct_arguments refused a {} payload: {:?}; types={:?} payload={}",
+                    what,
+                    err,
+                    types,
+                    hex_short(data)
+                ))
+            }
         };
         if args.len() != c.fields.len() {
-            return Err(viol!("construct:count", "{} arguments for {} types", args.len(), c.fields.len()));
+            return Err(viol!(
+                "construct:count",
+                "{} arguments for {} types",
+                args.len(),
+                c.fields.len()
+            ));
         }
         for (i, (a, f)) in args.iter().zip(c.fields.iter()).enumerate() {
             let label = g::kind_label(f.ty.kind);
             if a.type_info != types[i] || a.name.is_some() || a.unit.is_some() {
-                return Err(viol!(format!("construct:{}:type-info", label), "argument {} carries type {:?} / name {:?} / unit {:?}, given type {:?}", i, a.type_info, a.name, a.unit, types[i]));
+                return Err(viol!(
+                    format!("construct:{}:type-info", label),
+                    "argument {} carries type {:?} / name {:?} / unit {:?}, given type {:?}",
+                    i,
+                    a.type_info,
+                    a.name,
+                    a.unit,
+                    types[i]
+                ));
             }
             let got = value_from_crate(&a.value);
             let bits_ok = match f.ty.kind {
@@ -105,14 +144,21 @@ pub fn check(c: &Case) -> CheckResult {
                 _ => true,
             };
             let same = match (&got, &f.val) {
-                (RVal::Str(g), RVal::Str(w)) => g == w || (f.terminated && g.strip_suffix('\0') == Some(w.as_str())),
+                (RVal::Str(g), RVal::Str(w)) => {
+                    g == w || (f.terminated && g.strip_suffix('\0') == Some(w.as_str()))
+                }
                 (g, w) => g == w,
             };
             if !same || !bits_ok {
                 return Err(viol!(
                     format!("construct:{}:{}:value", label, if be { "be" } else { "le" }),
                     "argument {} ({:?}, {}) decoded to {:?}, expected {:?}; payload={}",
-                    i, f.ty.kind, if be { "big endian" } else { "little endian" }, a.value, f.val, hex_short(data)
+                    i,
+                    f.ty.kind,
+                    if be { "big endian" } else { "little endian" },
+                    a.value,
+                    f.val,
+                    hex_short(data)
                 ));
             }
         }
@@ -125,7 +171,15 @@ pub fn check(c: &Case) -> CheckResult {
         }
     }
     // a string that is not valid UTF-8 must be refused
-    let strings: Vec<usize> = c.fields.iter().enumerate().filter(|(_, f)| matches!((&f.ty.kind, &f.val), (RKind::Str, RVal::Str(s)) if !s.is_empty())).map(|(i, _)| i).collect();
+    let strings: Vec<usize> = c
+        .fields
+        .iter()
+        .enumerate()
+        .filter(
+            |(_, f)| matches!((&f.ty.kind, &f.val), (RKind::Str, RVal::Str(s)) if !s.is_empty()),
+        )
+        .map(|(i, _)| i)
+        .collect();
     if let (Some(k), false) = (c.corrupt, strings.is_empty()) {
         let target = strings[k as usize % strings.len()];
         let mut data = vec![];
@@ -160,36 +214,103 @@ pub fn check(c: &Case) -> CheckResult {
     // fixed-point kinds: the statement lists no decoding for them, only "no panic"
     if let Some(k) = c.with_fixed_point {
         let mut t2 = types.clone();
-        t2.push(type_to_crate(&RType { kind: k, vari: false, trai: false, scod: 0 }));
+        t2.push(type_to_crate(&RType {
+            kind: k,
+            vari: false,
+            trai: false,
+            scod: 0,
+        }));
         let mut data = with_trailing.clone();
-        data.extend_from_slice(&[1, 2, 3, 4, 5, 6, 7, 8, 9, 10, 11, 12, 13, 14, 15, 16, 17, 18, 19, 20, 21, 22, 23, 24]);
-        for cut in [data.len(), exact.len(), exact.len() + 3, exact.len() + 8, exact.len() + 12] {
+        data.extend_from_slice(&[
+            1, 2, 3, 4, 5, 6, 7, 8, 9, 10, 11, 12, 13, 14, 15, 16, 17, 18, 19, 20, 21, 22, 23, 24,
+        ]);
+        for cut in [
+            data.len(),
+            exact.len(),
+            exact.len() + 3,
+            exact.len() + 8,
+            exact.len() + 12,
+        ] {
             let cut = cut.min(data.len());
-            guard(|| construct_arguments(e, &t2, &data[..cut])).map_err(|p| Violation::from_panic(&format!("construct_arguments with fixed-point type {:?}", k), &p))?.ok();
+            guard(|| construct_arguments(e, &t2, &data[..cut]))
+                .map_err(|p| {
+                    Violation::from_panic(
+                        &format!("construct_arguments with fixed-point type {:?}", k),
+                        &p,
+                    )
+                })?
+                .ok();
         }
         pass.classes.push("fixed-point-no-panic");
     }
-    let multibyte = c.fields.iter().any(|f| matches!(f.ty.kind, RKind::Sint(b) | RKind::Uint(b) | RKind::Float(b) if b > 8) || matches!(f.ty.kind, RKind::Str | RKind::Raw));
+    let multibyte = c.fields.iter().any(|f| {
+        matches!(f.ty.kind, RKind::Sint(b) | RKind::Uint(b) | RKind::Float(b) if b > 8)
+            || matches!(f.ty.kind, RKind::Str | RKind::Raw)
+    });
     pass.nontrivial = c.fields.len() >= 2 && multibyte;
     for f in &c.fields {
         pass.classes.push(g::kind_label(f.ty.kind));
     }
-    pass.classes.push(if be { "big-endian" } else { "little-endian" });
+    pass.classes
+        .push(if be { "big-endian" } else { "little-endian" });
     pass.classes.sort();
     pass.classes.dedup();
     Ok(pass)
 }
 
 fn field() -> BoxedStrategy<Field> {
-    let kinds: Vec<RKind> = g::ALL_KINDS.iter().cloned().chain([RKind::Raw]).filter(|k| !matches!(k, RKind::SintFx(_) | RKind::UintFx(_))).collect();
-    (prop::sample::select(kinds), any::<bool>(), any::<bool>(), g::scod(), any::<bool>())
-        .prop_flat_map(|(kind, vari, trai, scod, terminated)| g::value_for(kind, 300).prop_map(move |val| Field { ty: RType { kind, vari, trai, scod }, val, terminated }))
+    let kinds: Vec<RKind> = g::ALL_KINDS
+        .iter()
+        .cloned()
+        .chain([RKind::Raw])
+        .filter(|k| !matches!(k, RKind::SintFx(_) | RKind::UintFx(_)))
+        .collect();
+    (
+        prop::sample::select(kinds),
+        any::<bool>(),
+        any::<bool>(),
+        g::scod(),
+        any::<bool>(),
+    )
+        .prop_flat_map(|(kind, vari, trai, scod, terminated)| {
+            g::value_for(kind, 300).prop_map(move |val| Field {
+                ty: RType {
+                    kind,
+                    vari,
+                    trai,
+                    scod,
+                },
+                val,
+                terminated,
+            })
+        })
         .boxed()
 }
 fn small_field() -> BoxedStrategy<Field> {
-    let kinds: Vec<RKind> = g::ALL_KINDS.iter().cloned().chain([RKind::Raw]).filter(|k| !matches!(k, RKind::SintFx(_) | RKind::UintFx(_))).collect();
-    (prop::sample::select(kinds), any::<bool>(), g::scod(), any::<bool>())
-        .prop_flat_map(|(kind, vari, scod, terminated)| g::value_for(kind, 6).prop_map(move |val| Field { ty: RType { kind, vari, trai: false, scod }, val, terminated }))
+    let kinds: Vec<RKind> = g::ALL_KINDS
+        .iter()
+        .cloned()
+        .chain([RKind::Raw])
+        .filter(|k| !matches!(k, RKind::SintFx(_) | RKind::UintFx(_)))
+        .collect();
+    (
+        prop::sample::select(kinds),
+        any::<bool>(),
+        g::scod(),
+        any::<bool>(),
+    )
+        .prop_flat_map(|(kind, vari, scod, terminated)| {
+            g::value_for(kind, 6).prop_map(move |val| Field {
+                ty: RType {
+                    kind,
+                    vari,
+                    trai: false,
+                    scod,
+                },
+                val,
+                terminated,
+            })
+        })
         .boxed()
 }
 pub fn strategy() -> impl Strategy<Value = Case> {
@@ -205,22 +326,142 @@ pub fn strategy() -> impl Strategy<Value = Case> {
 }
 
 pub fn raw_strategy() -> impl Strategy<Value = RawCase> {
-    let free = (vec(field().prop_map(|f| f.ty), 0..8), any::<bool>(), prop_oneof![vec(any::<u8>(), 0..40), vec(prop::sample::select(vec![0u8, 1, 2, 3, 4, 0x61, 0xC3, 0xA9, 0xFF]), 0..40)])
-        .prop_map(|(types, big_endian, data)| RawCase { types, big_endian, data });
+    let free = (
+        vec(field().prop_map(|f| f.ty), 0..8),
+        any::<bool>(),
+        prop_oneof![
+            vec(any::<u8>(), 0..40),
+            vec(
+                prop::sample::select(vec![0u8, 1, 2, 3, 4, 0x61, 0xC3, 0xA9, 0xFF]),
+                0..40
+            )
+        ],
+    )
+        .prop_map(|(types, big_endian, data)| RawCase {
+            types,
+            big_endian,
+            data,
+        });
     // a payload that is valid UTF-8 as a whole while the string field's length prefix cuts a multi-byte character in
     // two (the rest of the character lands in the following fields / trailing bytes): the string itself is invalid
-    let split_char = (g::scod(), any::<bool>(), vec(prop::sample::select(vec!["a", "é", "€", "𝄞", "z", "ß"]), 1..12), any::<u16>(), vec(prop::sample::select(vec![RKind::Uint(8), RKind::Sint(8), RKind::Bool, RKind::Uint(16)]), 0..4), any::<bool>())
+    let split_char = (
+        g::scod(),
+        any::<bool>(),
+        vec(
+            prop::sample::select(vec!["a", "é", "€", "𝄞", "z", "ß"]),
+            1..12,
+        ),
+        any::<u16>(),
+        vec(
+            prop::sample::select(vec![
+                RKind::Uint(8),
+                RKind::Sint(8),
+                RKind::Bool,
+                RKind::Uint(16),
+            ]),
+            0..4,
+        ),
+        any::<bool>(),
+    )
         .prop_map(|(scod, big_endian, pieces, cut, tail_kinds, vari)| {
             let text: String = pieces.concat();
             let k = (cut as usize * (text.len() + 1)) >> 16; // 0..=len, may or may not fall on a character boundary
-            let mut data = if big_endian { (k as u16).to_be_bytes().to_vec() } else { (k as u16).to_le_bytes().to_vec() };
+            let mut data = if big_endian {
+                (k as u16).to_be_bytes().to_vec()
+            } else {
+                (k as u16).to_le_bytes().to_vec()
+            };
             // the length prefix itself must be valid UTF-8 too: lengths below 128 give 00 xx / xx 00
             data.extend_from_slice(text.as_bytes());
-            let mut types = vec![RType { kind: RKind::Str, vari, trai: false, scod }];
-            types.extend(tail_kinds.into_iter().map(|kind| RType { kind, vari: false, trai: false, scod: 0 }));
-            RawCase { types, big_endian, data }
+            let mut types = vec![RType {
+                kind: RKind::Str,
+                vari,
+                trai: false,
+                scod,
+            }];
+            types.extend(tail_kinds.into_iter().map(|kind| RType {
+                kind,
+                vari: false,
+                trai: false,
+                scod: 0,
+            }));
+            RawCase {
+                types,
+                big_endian,
+                data,
+            }
         });
     prop_oneof![5 => free, 1 => split_char]
+}
+
+/// Block b of the trailing-length sweep: byte order x {string, raw} x closing-field length 0..=5 x 3 list prefixes;
+/// every trailing length 0..=1300 behind the closing field ("ignoring trailing bytes" for every amount, not a sample).
+fn trailing_case(block: u64, trailing: usize) -> RawCase {
+    let big_endian = block % 2 == 1;
+    let raw = (block / 2) % 2 == 1;
+    let len = ((block / 4) % 6) as usize;
+    let prefix = (block / 24) % 3;
+    let plain = |kind| RType {
+        kind,
+        vari: false,
+        trai: false,
+        scod: 0,
+    };
+    let mut types = vec![];
+    let mut data = vec![];
+    let put16 = |d: &mut Vec<u8>, v: u16| {
+        d.extend_from_slice(&if big_endian {
+            v.to_be_bytes()
+        } else {
+            v.to_le_bytes()
+        })
+    };
+    match prefix {
+        1 => {
+            types.push(plain(RKind::Uint(16)));
+            put16(&mut data, 0x1234);
+        }
+        2 => {
+            types.push(plain(RKind::Bool));
+            data.push(1);
+            types.push(plain(RKind::Str));
+            put16(&mut data, 2);
+            data.extend_from_slice(b"ab");
+        }
+        _ => {}
+    }
+    types.push(plain(if raw { RKind::Raw } else { RKind::Str }));
+    put16(&mut data, len as u16);
+    data.extend(std::iter::repeat(b'x').take(len));
+    data.extend((0..trailing).map(|i| b'A' + (i % 23) as u8));
+    RawCase {
+        types,
+        big_endian,
+        data,
+    }
+}
+pub const TRAILING_BLOCKS: u64 = 72;
+fn trailing_block(block: u64) -> BlockReport {
+    let mut rep = BlockReport::default();
+    for t in 0..=1300usize {
+        let c = trailing_case(block, t);
+        rep.evaluations += 1;
+        match check_raw(&c) {
+            Ok(_) => rep.nontrivial += (t > 0) as u64,
+            Err(v) => {
+                if rep.violation.is_none() {
+                    rep.violation = Some((serde_json::json!(c), v));
+                }
+            }
+        }
+    }
+    rep.classes.push(("trailing-length-sweep", 1301));
+    if block == 30 {
+        rep.sample = Some(
+            serde_json::json!({"block": block, "case_at_trailing_7": trailing_case(block, 7)}),
+        );
+    }
+    rep
 }
 
 pub fn run(run: &Run) {
@@ -229,11 +470,24 @@ pub fn run(run: &Run) {
          trailing bytes; payload = reference packing (fields back to back in the stated byte order, strings/raw behind a 16-bit length); checked: exact \
          and exact+trailing decode to one argument per type with the given type info and bit-equal value (strings modulo one final NUL), EVERY proper \
          truncation is refused (enumerated, counted in sub_evaluations), a non-UTF-8 string is refused, fixed-point kinds never panic; non-trivial = >= \
-         2 types incl. a multi-byte numeric or a string/raw; distinct by the whole case",
+         2 types incl. a multi-byte numeric or a string/raw; distinct by the whole case. Section trailing-length-sweep: EVERY trailing length \
+         0..=1300 behind a closing string/raw field of 0..=5 bytes (both byte orders, three list prefixes), judged by the reference decode",
     );
     run.assume("strings are generated without NUL except an optional final terminator; whether the terminator is kept in the value is left open by the statement");
     run.regressions(&replay);
-    run.random("construct", run.cases(300_000, 4_000_000), 0.5, strategy, check);
+    run.random(
+        "construct",
+        run.cases(300_000, 4_000_000),
+        0.5,
+        strategy,
+        check,
+    );
+    run.enumerate(
+        "trailing-length-sweep",
+        TRAILING_BLOCKS,
+        true,
+        trailing_block,
+    );
     // arbitrary payloads (not produced by the reference packing): verdict and values must equal the reference decode
     run.random(
         "arbitrary-payloads",
@@ -248,7 +502,10 @@ pub fn replay(section: &str, case: &Json) -> Option<CheckResult> {
     if section.starts_with("fuzz-") {
         return super::fuzz_replay("C13", section, case);
     }
-    if section == "arbitrary-payloads" || section == "fuzz-args" {
+    if section == "arbitrary-payloads"
+        || section == "fuzz-args"
+        || section == "trailing-length-sweep"
+    {
         return case_from::<RawCase>(case).map(|c| check_raw(&c));
     }
     case_from::<Case>(case).map(|c| check(&c))
